@@ -41,7 +41,7 @@ theorem notMulti_single {N : NumOps} (call : CallFn N) (ρ : ExtOracle N) (k : N
   | bin op l r =>
     by_cases hop : op = .and ∨ op = .or
     · have : canReturnMultiple (.bin op l r) = false := by rcases hop with rfl | rfl <;> rfl
-      exact canReturnMultiple_sound call ρ k env _ this trivial σ σ' vs h
+      exact canReturnMultiple_sound call ρ k env _ this hi σ σ' vs h
     · have hne1 : op ≠ .and := fun h => hop (Or.inl h)
       have hne2 : op ≠ .or := fun h => hop (Or.inr h)
       have key : evalE call ρ k env (.bin op l r) σ =
@@ -64,7 +64,7 @@ theorem notMulti_single {N : NumOps} (call : CallFn N) (ρ : ExtOracle N) (k : N
           rw [← h.1]; simp [first]
   | nil | «true» | «false» | num _ | str _ | var _ | paren _ | field _ _ | index _ _ | fn _ | table _
   | ifx _ _ _ _ | interp _ | cast _ _ =>
-    exact canReturnMultiple_sound call ρ k env _ rfl trivial σ σ' vs h
+    exact canReturnMultiple_sound call ρ k env _ rfl hi σ σ' vs h
 
 /-- a multi-valued expression is left alone by the rule -/
 theorem processExpr_multi (api : EvalApi) (e : Expr) (h : multi e = true) : processExpr api e = e := by
@@ -90,7 +90,7 @@ def okSpine (api : EvalApi) (good : Expr → Prop) : Expr → Prop
 theorem multi_false_of_processed {api : EvalApi} {x : Expr} (h : multi (processExpr api x) = false) : multi x = false := by
   cases hm : multi x with
   | false => rfl
-  | true => rw [processExpr_multi api x hm] at h; rw [h] at hm; exact hm
+  | true => rw [processExpr_multi api x hm, hm] at h; exact absurd h (by simp)
 
 /-- selecting an operand of `and`/`or` whose left side is decided, pure and non-allocating -/
 theorem select_refines {api : EvalApi} {good : Expr → Prop} (hs : EvalSound api good)
@@ -147,5 +147,85 @@ theorem select_refines {api : EvalApi} {good : Expr → Prop} (hs : EvalSound ap
            | ok ws σ2 =>
              simp [hr] at h
              rw [notMulti_single call ρ k env r hmx hir σ1 σ2 ws hr, h.1, h.2])
+
+/-- `process_expression` refines, in every context, under `H` (`okSpine`) -/
+theorem processExpr_refines {api : EvalApi} {good : Expr → Prop} (hs : EvalSound api good) (hf : FoldSound api good)
+    {N : NumOps} (call : CallFn N) (ρ : ExtOracle N) (k : Nat) (env : Env N) :
+    ∀ (e : Expr), okSpine api good e → ∀ (σ σ' : State N) (vs : List (Val N)),
+      evalE call ρ k env e σ = .ok vs σ' → evalE call ρ k env (processExpr api e) σ = .ok vs σ'
+  | .un op x, hok, σ, σ', vs, h => by
+    by_cases hse : api.hasSideEffects (.un op x) = true
+    · simpa [processExpr, hse] using h
+    · have hse' : api.hasSideEffects (.un op x) = false := by simpa using hse
+      have ⟨hg, hna⟩ := hok hse'
+      cases hte : api.toExpr (.un op x) with
+      | none => simpa [processExpr, hse', hte] using h
+      | some v =>
+        have := hf.folded _ v hg hte hse' hna call ρ k env σ σ' vs h
+        simpa [processExpr, hse', hte] using this
+  | .ifx c t elifs el, hok, σ, σ', vs, h => by
+    by_cases hse : api.hasSideEffects (.ifx c t elifs el) = true
+    · simpa [processExpr, hse] using h
+    · have hse' : api.hasSideEffects (.ifx c t elifs el) = false := by simpa using hse
+      have ⟨hg, hna⟩ := hok hse'
+      cases hte : api.toExpr (.ifx c t elifs el) with
+      | none => simpa [processExpr, hse', hte] using h
+      | some v =>
+        have := hf.folded _ v hg hte hse' hna call ρ k env σ σ' vs h
+        simpa [processExpr, hse', hte] using this
+  | .bin op l r, hok, σ, σ', vs, h => by
+    obtain ⟨hpure, himpure⟩ := hok
+    by_cases hse : api.hasSideEffects (.bin op l r) = true
+    · -- the expression has side effects: only a pure, decided left operand of and/or is dropped
+      by_cases hop : op = .and ∨ op = .or
+      · by_cases hsel : api.hasSideEffects l = true
+        · rcases hop with rfl | rfl <;> simpa [processExpr, hse, hsel] using h
+        · have hsel' : api.hasSideEffects l = false := by simpa using hsel
+          cases htl : api.isTruthy l with
+          | none => rcases hop with rfl | rfl <;> simpa [processExpr, hse, hsel', htl] using h
+          | some b =>
+            have ⟨hg, hna, hil, hir, hmulti⟩ := himpure hse hop hsel' (by simp [htl])
+            have sel := select_refines hs call ρ k env op l r b hop hg htl hsel' hna hil hir σ σ' vs h
+            rcases hop with rfl | rfl <;> cases b <;>
+              simp only [processExpr, hse, hsel', htl, Bool.not_true, Bool.not_false, Bool.false_eq_true,
+                if_false, if_true] at hmulti ⊢ <;>
+              exact sel (by simpa using hmulti)
+      · have h1 : op ≠ .and := fun hh => hop (Or.inl hh)
+        have h2 : op ≠ .or := fun hh => hop (Or.inr hh)
+        cases op <;> first | exact absurd rfl h1 | exact absurd rfl h2 | simpa [processExpr, hse] using h
+    · have hse' : api.hasSideEffects (.bin op l r) = false := by simpa using hse
+      obtain ⟨hfold, hselect⟩ := hpure hse'
+      cases hte : api.toExpr (.bin op l r) with
+      | some v =>
+        have ⟨hg, hna⟩ := hfold (by simp [hte])
+        have := hf.folded _ v hg hte hse' hna call ρ k env σ σ' vs h
+        simpa [processExpr, hse', hte] using this
+      | none =>
+        by_cases hop : op = .and ∨ op = .or
+        · cases htl : api.isTruthy l with
+          | none => rcases hop with rfl | rfl <;> simpa [processExpr, hse', hte, htl] using h
+          | some b =>
+            have ⟨hg, hsel', hna, hil, hir, hmulti, hokl, hokr⟩ := hselect hte hop (by simp [htl])
+            have sel := select_refines hs call ρ k env op l r b hop hg htl hsel' hna hil hir σ σ' vs h
+            rcases hop with rfl | rfl <;> cases b <;>
+              simp only [processExpr, hse', hte, htl, Bool.not_true, Bool.not_false, Bool.false_eq_true,
+                if_false, if_true] at hmulti ⊢
+            · -- and, false: left operand, processed
+              exact processExpr_refines hs hf call ρ k env l hokl σ σ' vs
+                (sel (by simpa using multi_false_of_processed hmulti))
+            · exact processExpr_refines hs hf call ρ k env r hokr σ σ' vs
+                (sel (by simpa using multi_false_of_processed hmulti))
+            · exact processExpr_refines hs hf call ρ k env r hokr σ σ' vs
+                (sel (by simpa using multi_false_of_processed hmulti))
+            · exact processExpr_refines hs hf call ρ k env l hokl σ σ' vs
+                (sel (by simpa using multi_false_of_processed hmulti))
+        · have h1 : op ≠ .and := fun hh => hop (Or.inl hh)
+          have h2 : op ≠ .or := fun hh => hop (Or.inr hh)
+          cases op <;> first | exact absurd rfl h1 | exact absurd rfl h2 | simpa [processExpr, hse', hte] using h
+  | .nil, _, _, _, _, h | .true, _, _, _, _, h | .false, _, _, _, _, h | .vararg, _, _, _, _, h
+  | .num _, _, _, _, _, h | .str _, _, _, _, _, h | .var _, _, _, _, _, h | .paren _, _, _, _, _, h
+  | .call _ _ _ _, _, _, _, _, h | .field _ _, _, _, _, _, h | .index _ _, _, _, _, _, h | .fn _, _, _, _, _, h
+  | .table _, _, _, _, _, h | .interp _, _, _, _, _, h | .cast _ _, _, _, _, _, h | .inst _ _, _, _, _, _, h => by
+    simpa [processExpr] using h
 
 end DarkluaModel.Rules.ComputeExpression.Sound
